@@ -186,7 +186,7 @@ def run_sequence(ctx, comps, ops, replay):
                             continue
                         (a, p) = free[x % len(free)]
                         src, tgt = ("nosuchpin" if z % 2 else L.Pin("nosuchpin")), (real.sts[a], p)
-                    executed.append(("invalid", kind, a))
+                    executed.append(("invalid", kind, a, src if isinstance(src, str) else src.name, tgt[1] if isinstance(tgt[1], str) else tgt[1].name))
                     obj = new_obj()
 
                     def do_put():
